@@ -75,6 +75,20 @@ def make_trial(kind, norb, nelec, ham_data, rs, mix=0.0, n_batch=1, ndets=2):
         cb = orbitals_from_h1(h1[1], nelec[1], rs, mix)
         trial = wavefunctions.uhf(norb, nelec, n_batch=n_batch)
         wave_data["mo_coeff"] = [jnp.array(ca), jnp.array(cb)]
+    elif kind == "ghf":
+        ca = orbitals_from_h1(h1[0], nelec[0], rs, mix)
+        cb = orbitals_from_h1(h1[1], nelec[1], rs, mix)
+        g = np.zeros((2 * norb, nelec[0] + nelec[1]))
+        g[:norb, : nelec[0]] = ca
+        g[norb:, nelec[0] :] = cb
+        # mix the two spin channels with a random orthogonal rotation of the spin-orbital space
+        k = rs.normal(size=(2 * norb, 2 * norb))
+        import scipy.linalg as sla
+
+        q = sla.expm(0.25 * (k - k.T))
+        g = q @ g
+        trial = wavefunctions.ghf(norb, nelec, n_batch=n_batch)
+        wave_data["mo_coeff"] = jnp.array(g)
     elif kind == "noci":
         ups, dns = [], []
         for k in range(ndets):
